@@ -275,6 +275,8 @@ def _run_impl(scn, horizon_us=80_000_000):
                 loop.call_at(ts, lost)
             elif ev[0] == "call":
                 loop.call_at(ts, lambda i=ev[1]: loop.create_task(caller(i)))
+            elif ev[0] == "stall":          # a callback that takes wall time: the clock moves on within the iteration
+                loop.call_at(ts, lambda d=ev[1]: setattr(loop, "_vtime", loop._vtime + d / 1e6))
             elif ev[0] == "rx":
                 line = rx_line(ev[1], cmds[ev[2]])
                 if line:
@@ -358,6 +360,8 @@ def scn_to_coq(scn, info) -> str:
             evs.append(f"({t}, ConnLost)")
         elif ev[0] == "call":
             evs.append(f"({t}, Call {ev[1]}%nat)")
+        elif ev[0] == "stall":
+            evs.append(f"({t}, Stall {ev[1]})")
         else:
             from ramses_tx.packet import Packet  # noqa: PLC0415
             cmd = cmds[ev[2]]
